@@ -664,10 +664,19 @@ func (g Gateway) GetByIndexStream(in *hydrapb.GetByIndexStreamRequest, stream hy
 		// Bucket-routed: pull candidates from the auto-built index,
 		// then apply time-range, sort, paging, residual predicate.
 		candidates := collectBucketCandidates(swampInterface, plan.Hints)
-		candidates = dropWithoutBeaconTime(candidates, beaconType)
-		candidates = applyTimeRange(candidates, beaconType, fromTime, toTime)
-		sortCandidates(candidates, beaconType, order)
-		treasures = applyFromLimit(candidates, in.GetFrom(), in.GetLimit())
+		if in.GetFrom() != 0 || in.GetLimit() != 0 {
+			var err error
+			treasures, err = pageBeaconAmongCandidates(swampInterface, candidates, beaconType, order,
+				in.GetFrom(), in.GetLimit(), fromTime, toTime)
+			if err != nil {
+				return status.Error(codes.Internal, fmt.Sprintf("hydra error: %s", err.Error()))
+			}
+		} else {
+			candidates = dropWithoutBeaconTime(candidates, beaconType)
+			candidates = applyTimeRange(candidates, beaconType, fromTime, toTime)
+			sortCandidates(candidates, beaconType, order)
+			treasures = candidates
+		}
 		residualFilters = plan.Residual
 	} else {
 		// Bypass: legacy beacon walk, full per-row predicate.
@@ -802,10 +811,18 @@ func (g Gateway) GetByIndexStreamFromMany(in *hydrapb.GetByIndexStreamFromManyRe
 
 			if plan.Mode != PlanModeBypass && bucketExecPreconditions(beaconType) {
 				candidates := collectBucketCandidates(swampInterface, plan.Hints)
-				candidates = dropWithoutBeaconTime(candidates, beaconType)
-				candidates = applyTimeRange(candidates, beaconType, fromTime, toTime)
-				sortCandidates(candidates, beaconType, order)
-				treasures = applyFromLimit(candidates, query.GetFrom(), query.GetLimit())
+				if query.GetFrom() != 0 || query.GetLimit() != 0 {
+					treasures, err = pageBeaconAmongCandidates(swampInterface, candidates, beaconType, order,
+						query.GetFrom(), query.GetLimit(), fromTime, toTime)
+					if err != nil {
+						return false, status.Error(codes.Internal, fmt.Sprintf("hydra error: %s", err.Error()))
+					}
+				} else {
+					candidates = dropWithoutBeaconTime(candidates, beaconType)
+					candidates = applyTimeRange(candidates, beaconType, fromTime, toTime)
+					sortCandidates(candidates, beaconType, order)
+					treasures = candidates
+				}
 				residualFilters = plan.Residual
 			} else {
 				treasures, err = swampInterface.GetTreasuresByBeacon(
